@@ -24,7 +24,9 @@ RULE = (
     "depths = sum y*max(f,0)^2 / sum max(f,0)^2 over the spike's template's feature channels (NaN "
     "where the denominator is 0, both sides). For use='clusters' the cluster waveform array the "
     "model exposes (checked by C08) is the input of the formulas. Non-trivial: an id without "
-    "spikes exists (low / middle / highest), or factor != 1, or curated.")
+    "spikes exists (low / middle / highest), or factor != 1, or curated. (large) hand-made datasets "
+    "with 50 001 spikes (thorough: 49 999 / 50 000 / 50 001 / 100 003) cross the 50 000-spike "
+    "batching of get_depths.")
 ASSUMPTIONS = ['float tolerance rtol 1e-5 (1e-4 for float32 waveforms)']
 
 
@@ -36,9 +38,17 @@ def _case(draw):
     return {'spec': spec, 'factor': draw(st.sampled_from([1, 1.0, 2.5, 1e-6]))}
 
 
+def _large_cases(th):
+    # batching boundary of get_depths (50 000 spikes per batch): just below, at, above, two batches
+    for ns in ([50001] if not th else [49999, 50000, 50001, 100003]):
+        yield {'spec': D.large_spec(ns, seed=ns % 97), 'factor': 2.5, 'large': True}
+
+
 def drivers(tier):
     th = tier == 'thorough'
-    return [dict(kind='hyp', name='summaries', strategy=_case(), examples=100000 if th else 10000)]
+    return [dict(kind='hyp', name='summaries', strategy=_case(), examples=100000 if th else 10000),
+            dict(kind='enum', name='large', exhaustive=False, bound='spike counts around the '
+                 '50 000-spike batch of get_depths', cases=lambda: _large_cases(th))]
 
 
 def _peak_ok(W, k, ch):
@@ -167,6 +177,8 @@ def check(case):
 def classify(case, info):
     s = case['spec']
     labels = ['factor:%r' % case['factor'], 'rate:%d' % s['rate']]
+    if case.get('large'):
+        labels.append('large:%d-spikes' % s['ns'])
     nt = False
     for p in info['empty_pos']:
         labels.append('id-without-spikes:' + p)
